@@ -4,7 +4,7 @@
 # 2. applies /tmp/mut<sfx>.patch to /repo, runs the quick checks of the given properties, undoes the patch
 # 3. stores patch, demo and results under /verif/seeded/<seed-id>/
 sfx=$1; sid=$2; shift 2; props="$@"
-wt=/tmp/mut$sfx; patch=/tmp/mut$sfx.patch; demo=$(ls $wt/tests/demo_*.rs 2>/dev/null | head -1)
+wt=/tmp/$sfx; patch=/tmp/$sfx.patch; demo=$(ls $wt/tests/demo*_c*.rs 2>/dev/null | head -1)
 out=/verif/seeded/$sid; mkdir -p $out
 [ -s $patch ] || { echo "no patch $patch"; exit 2; }
 cp $patch $out/patch.diff; [ -n "$demo" ] && cp $demo $out/$(basename $demo)
